@@ -21,6 +21,7 @@ def e2(rnd, count, big):
                 sc.append('%s 1 300 %d %d %d' % (op, 290 + off, off, n))
             for op in ('benc', 'bsink'):
                 sc.append('%s 1 300 %d %d' % (op, n + off, off))
+    sc += ['msinkhuge %d %d' % (k, d) for k in range(6) for d in (0, 1, 8, 9, 10, 200)]
     yield sc
     for _ in range(count):
         sc = []
